@@ -52,6 +52,7 @@ def steps(pre):
         out.append(("drop", lambda P, T: T[0] >> pdt.drop(K(P, P[0].vis[0])), dict(hist=(), drop=True)))
     out.append(("rename", lambda P, T: T[0] >> pdt.rename({P[0].phys[v0]: P[0].nn("r0")}), dict(hist=())))
     out.append(("group_by", lambda P, T: T[0] >> pdt.group_by(K(P, v0)), dict(hist=())))
+    out.append(("group_by_add", lambda P, T: T[0] >> pdt.group_by(K(P, v0), add=True), dict(hist=())))
     out.append(("ungroup", lambda P, T: T[0] >> pdt.ungroup(), dict(hist=())))
     out.append(("alias", lambda P, T: T[0] >> pdt.alias(keep_col_refs=True), dict(hist=())))
     out.append(("mutate1", lambda P, T: T[0] >> pdt.mutate(**{P[0].nn("k0"): K(P, v0) + K(P, other)}), dict(hist=(), new={"k0": ("+", S(pre, v0), S(pre, other))})))
@@ -94,6 +95,14 @@ def make_run(skel, label, fn, expect, backend):
                 vc.require(p.pc, z3.BoolVal(bool(ok)), "V1: Mutate node must hold parallel names / values / fresh distinct uuids", wit)
             if label == "slice_head":
                 vc.require(p.pc, z3.BoolVal(isinstance(node, VT.SliceHead) and (node.n, node.offset) == (3, 2)), "V1: SliceHead(n, offset)", wit)
+            if label in ("group_by", "group_by_add"):
+                # documented: group_by replaces the grouping unless add=True, which appends to it
+                old = [pre.uuids[i] for i in pre.grp]
+                want = (old if label == "group_by_add" else []) + [pre.uuids[pre.vis[0]]]
+                vc.require(p.pc, z3.BoolVal(isinstance(node, VT.GroupBy) and node.add is (label == "group_by_add") and list(new._cache.partition_by) == want),
+                           f"V1: grouping after {label} is {list(new._cache.partition_by)}; documented: {'the old grouping followed by' if label == 'group_by_add' else 'exactly'} the given columns", wit)
+            if label == "ungroup":
+                vc.require(p.pc, z3.BoolVal(list(new._cache.partition_by) == []), "V1: ungroup leaves a grouping", wit)
             if backend == "polars":
                 df, name_in_df, select, part = state
                 vc.require(p.pc, z3.BoolVal(df.hist == expect["hist"]), f"V2: row operations applied {df.hist}, documented {expect['hist']}", wit)
@@ -154,6 +163,45 @@ def sql_token(e):
     return (e.kind,) + tuple(sql_token(a) for a in e.args)
 
 
+def v1d_run(carve):
+    """documented default arguments of the verbs (the implementation's defaults, not only those of the @overload stubs)"""
+    import polars as pl
+
+    from .c13 import _enum_outcome
+
+    n, bad = 0, []
+    t = pdt.Table(pl.DataFrame({"a": [1, 2, 3], "b": [4, 5, 6]}), name="t")
+    u = pdt.Table(pl.DataFrame({"a": [7], "b": [8]}), name="u")
+
+    def chk(label, cond, got):
+        nonlocal n
+        n += 1
+        if not cond:
+            bad.append(f"{label}: got {got}")
+
+    nd = (t >> pdt.slice_head(2))._ast
+    chk("slice_head(n) has offset 0", (nd.n, nd.offset) == (2, 0), (nd.n, nd.offset))
+    g = t >> pdt.group_by(t.a) >> pdt.group_by(t.b)
+    chk("group_by replaces the grouping by default", [t._cache.uuid_to_name.get(x) for x in g._cache.partition_by] == ["b"], g._cache.partition_by)
+    un = (t >> pdt.union(u))._ast
+    chk("union keeps duplicates by default (UNION ALL)", un.distinct is False, un.distinct)
+    j = (t >> pdt.join(u, t.a == u.a, "inner"))
+    chk("join validates m:m by default and derives the suffix from the right table's name", j._ast.validate == "m:m" and [c.name for c in j] == ["a", "b", "a_u", "b_u"], (j._ast.validate, [c.name for c in j]))
+    al = t >> pdt.alias("x")
+    chk("alias() gives fresh column identities by default", al._ast.uuid_map is not None and all(c._uuid not in t._cache.cols for c in al), al._ast.uuid_map)
+    co = t >> pdt.mutate(c=t.a + 1) >> pdt.collect()
+    chk("collect() keeps the column references by default", t.a._uuid in co._cache.cols, list(co._cache.cols))
+    ex = t >> pdt.export(pdt.Polars())
+    chk("export(Polars()) is eager by default", isinstance(ex, pl.DataFrame), type(ex).__name__)
+    ca = t.a.cast(pdt.Float64())
+    chk("cast is strict by default", ca.strict is True, ca.strict)
+    sh = t.a.shift(1, arrange=t.b)
+    chk("shift fills with null by default", len(sh.args) == 3 and sh.args[2].val is None, [getattr(a, "val", a) for a in sh.args])
+    o = H.col_expr_mod.Order.from_col_expr(t.a)
+    chk("arrange is ascending with unspecified null position by default", (o.descending, o.nulls_last) == (False, None), (o.descending, o.nulls_last))
+    return _enum_outcome("documented default arguments of the verbs and expression methods", n, bad)
+
+
 def obligations(tier):
     fi = H.fn_info
     fns = [fi(getattr(verbs_mod, n)) for n in ("select", "drop", "rename", "mutate", "filter", "arrange", "slice_head", "group_by", "ungroup", "alias", "preprocess_arg")]
@@ -170,6 +218,8 @@ def obligations(tier):
     # V3/slice: LIMIT/OFFSET composition for symbolic n / offsets (the same VC as C08/S6, stated here for slice_head's own meaning)
     obs.append(Obligation("C02/V3/slice_compose/sql", "V3", "slice_head after slice_head on SQL selects rows [O+k, O+k+min(n, max(L-k,0))) for all L, O, n, k", c08.make_s6("sql"), functions=[H.fn_info(H.sql_backend.SqlImpl.compile_ast)], replayer=c08.replay_s6))
     obs.append(Obligation("C02/V2/slice_compose/polars", "V2", "Polars applies slice(offset, n) to the current frame", c08.make_s6("polars"), functions=[H.fn_info(H.polars_backend.compile_ast)]))
+    obs.append(Obligation("C02/V1d/defaults", "V1", "documented default arguments (offset=0, add=False, distinct=False, validate='m:m', fresh uuids after alias, collect keeps references, strict casts, null fill)", v1d_run,
+                          functions=[H.fn_info(getattr(verbs_mod, n)) for n in ("slice_head", "group_by", "union", "join", "alias", "collect", "export")], bounded="one call per default (the default is a property of the signature, not of the data)"))
     return obs
 
 
